@@ -13,6 +13,7 @@ import (
 	"runtime/debug"
 	"sort"
 	"strconv"
+	"strings"
 
 	"golang.org/x/tools/go/packages"
 )
@@ -82,6 +83,16 @@ func main() {
 	genFuncs := flag.Bool("gen-functions", false, "maintenance: write tables/functions.json (the function inventory renames are resolved against) from -repo")
 	flag.Parse()
 	tablesDir = filepath.Join(*verif, "tables")
+	if os.Getenv("ZNCHECK_DUMP_MUSTCALL") != "" {
+		c := &Ctx{Repo: *repo, Verif: *verif, Tier: "quick", R: newReport("C00", "quick")}
+		u := c.Core()
+		u.buildSSA()
+		dumpMustCall(u, corePkgs)
+		su := c.Server()
+		su.buildSSA()
+		dumpMustCall(su, []string{"pkg/server"})
+		return
+	}
 	if *genFuncs {
 		tablesDir = ""
 		var inv inventoryFile
@@ -146,6 +157,7 @@ func main() {
 			}
 		}()
 		f(c)
+		runMustCall(c, *prop)
 		if c.Tier == "thorough" && os.Getenv("ZNCHECK_NO_SELFTEST") == "" {
 			// only meaningful when the unchanged tree has no unlisted violation
 			failing := false
@@ -187,6 +199,7 @@ func runAll(repo, verif, tier string) int {
 				}
 			}()
 			props[id](c)
+			runMustCall(c, id)
 			return c.R.finish(c.Verif, seed())
 		}()
 		if shared == nil {
@@ -221,5 +234,35 @@ func borrowRule(c *Ctx, fromProp, fromRule, asRule string) {
 	}
 	if n == 0 {
 		c.R.viol(asRule, "borrowed:"+fromRule, "", "rule "+fromRule+" produced no obligation")
+	}
+}
+
+// runMustCall adds the must-call obligations of the property (tables/mustcall.json) to its report
+func runMustCall(c *Ctx, prop string) {
+	if len(c.R.Obls) > 0 && c.R.Obls[0].Rule == prop+".infra" {
+		return
+	}
+	u := c.Core()
+	u.buildSSA()
+	var table []mustCallEntry
+	if !loadTable(c, "mustcall.json", &table) {
+		return
+	}
+	var core, server []mustCallEntry
+	for _, e := range table {
+		if e.Property != prop {
+			continue
+		}
+		if strings.HasPrefix(e.Fn, "pkg/server.") {
+			server = append(server, e)
+		} else {
+			core = append(core, e)
+		}
+	}
+	ruleMustCallEntries(c, u, prop, core)
+	if len(server) > 0 {
+		su := c.Server()
+		su.buildSSA()
+		ruleMustCallEntries(c, su, prop, server)
 	}
 }
